@@ -784,6 +784,14 @@ class VM:
             # Check prototype chain
             if not isinstance(obj, JSObject):
                 self.stack.append(False)
+            elif isinstance(constructor, JSFunction) and not isinstance(
+                getattr(constructor, "_prototype", None), JSObject
+            ):
+                # F.prototype was replaced by something that is not an object
+                # (or F is an arrow or a method, which have none)
+                raise JSTypeError(
+                    "Function has non-object prototype in instanceof check"
+                )
             else:
                 # Get constructor's prototype property
                 # For JSFunction, check _prototype attribute (if set and not None)
